@@ -250,6 +250,13 @@ def result_arms(body, call_block):
                 if p and not p["p"] and p["l"] in locals_ and st["place"]["l"] not in locals_:
                     locals_.add(st["place"]["l"])
                     changed = True
+        # `?`: Try::branch maps Some/Ok to Continue and None/Err to Break - the arms of the branch result are the arms of the value
+        for b, t2, fr in body.iter_calls():
+            if fr is not None and fn_name(fr).endswith("::Try>::branch") and t2["args"] and not t2["dest"]["p"]:
+                p = op_place(t2["args"][0])
+                if p and not p["p"] and p["l"] in locals_ and t2["dest"]["l"] not in locals_:
+                    locals_.add(t2["dest"]["l"])
+                    changed = True
     out = []
     for b, place, targets, otherwise in discr_switches(body):
         if place["p"] or place["l"] not in locals_:
